@@ -275,9 +275,43 @@ pub fn run() {
 """ % (a, a, w("subj(&ctx, 2)"), w("ctx.subj(2)"), w("pair_len(&pair)"), w("pair.pair_len()"))
         return Case(cid, src, meta={"family": "borrowing", "nontrivial": True})
     borrowing = [borrowing_case("c05b_0", False), borrowing_case("c05b_1", True)]
+    # concrete dependency types that are not `Sized` (`str`, a slice, a trait object): a leaf like any other - implemented for the
+    # type itself, and for `Impl<App>` of every application that adopts it by hand (there is no `Impl<str>`)
+    UNSIZED = [("str", "deps.len()", "s: ::std::string::String", "self.s.as_str()", 's: ::std::string::String::from("abcd")', '"abcd"'),
+               ("[u8]", "deps.len()", "s: ::std::vec::Vec<u8>", "self.s.as_slice()", "s: ::std::vec![1u8, 2, 3, 4]", "(&[1u8, 2, 3, 4][..])"),
+               ("dyn Named", "deps.name().len()", "s: ::std::boxed::Box<dyn Named + ::core::marker::Send + ::core::marker::Sync>", "&*self.s as &dyn Named", "s: ::std::boxed::Box::new(N4)", "(&N4 as &dyn Named)"),
+               ("(dyn Named + ::core::marker::Send + ::core::marker::Sync)", "deps.name().len()", "s: ::std::boxed::Box<dyn Named + ::core::marker::Send + ::core::marker::Sync>",
+                "&*self.s", "s: ::std::boxed::Box::new(N4)", "(&N4 as &(dyn Named + ::core::marker::Send + ::core::marker::Sync))")]
+
+    def unsized_case(cid, kind, is_async):
+        ty, expr, field, access, init, val = UNSIZED[kind]
+        a, w, aw = ("async ", lambda c: "::vrt::block_on(%s)" % c, ".await") if is_async else ("", lambda c: c, "")
+        src = """pub trait Named { fn name(&self) -> ::std::string::String; }
+pub struct N4; impl Named for N4 { fn name(&self) -> ::std::string::String { ::std::string::String::from("four") } }
+#[::entrait::entrait(pub Subj)] /*@inv*/
+%sfn subj(deps: &%s, k: usize) -> usize { ::vrt::enter("%s::subj", ::vrt::tn(deps), 0, &[&k as &dyn ::core::fmt::Debug]); %s * k }
+#[::entrait::entrait(pub Next)]
+%sfn next(deps: &impl Subj, k: usize) -> usize { deps.subj(k)%s + 1 }
+pub struct App { pub %s }
+impl Subj for App { %sfn subj(&self, k: usize) -> usize { (%s).subj(k)%s + 100 } }
+pub struct NoTrait;
+pub fn run() {
+    ::vrt::fact("bare_c", ::vrt::implements!(%s: Subj));
+    ::vrt::fact("impl_app", ::vrt::implements!(::entrait::Impl<App>: Subj));
+    ::vrt::fact("impl_notrait", ::vrt::implements!(::entrait::Impl<NoTrait>: Subj));
+    ::vrt::fact("bare_notrait", ::vrt::implements!(NoTrait: Subj));
+    let app = ::entrait::Impl::new(App { %s });
+    ::vrt::phase("unsized");
+    ::vrt::kv("direct", %s); ::vrt::kv("on_c", %s);
+    ::vrt::kv("on_impl_app", %s); ::vrt::kv("next_layer", %s);
+}
+""" % (a, ty, cid, expr, a, aw, field, a, access, aw, ty, init, w("subj(%s, 2)" % val), w("%s.subj(2)" % val),
+       w("<::entrait::Impl<App> as Subj>::subj(&app, 2)"), w("app.next(2)"))
+        return Case(cid, src, meta={"family": "unsized", "nontrivial": True, "kind": ty, "fn": "%s::subj" % cid})
+    unsized = [unsized_case("c05u_%d%d" % (k, int(x)), k, x) for k in range(4) for x in (False, True) if not (x and k == 2)]
     from .c06 import eager_future_case, check_eager_future
     eager = [eager_future_case("c05e_%03d" % i, rng, shape="concrete_fn") for i in range(4)]
-    ws.extend(cases + eager + borrowing + pins + [st])
+    ws.extend(cases + eager + borrowing + unsized + pins + [st])
     ws.write()
     b = ws.build()
     ws.run(b["exes"])
@@ -298,9 +332,29 @@ pub fn run() {
         else:
             rep.bump("borrowing_cases_ok")
         rep.count(c.sig(), True)
+    for c in unsized:
+        if c.removed is not None:
+            d = (c.removed["diags"] or [{}])[0]
+            rep.violation(c.id, "unsized:compile:%s" % d.get("code"), "a leaf over the unsized concrete type %s cannot be adopted / used as a bound: %s" % (c.meta["kind"], d.get("message", "")[:300]))
+            continue
+        rec = c.runrec.get("bin") or {}
+        if rec.get("crash") or rec.get("panic"):
+            rep.violation(c.id, "unsized:crash-or-panic", "case died: %s" % (rec.get("crash") or rec.get("panic"))[:300])
+            continue
+        ph = {p_["label"]: p_ for p_ in rec.get("phases", [])}.get("unsized", {})
+        kv, f = dict(ph.get("kv", {})), rec.get("facts", {})
+        evs = [e["fn"] for e in ph.get("events", [])]
+        want_f = {"bare_c": "true", "impl_app": "true", "impl_notrait": "false", "bare_notrait": "false"}
+        if {k_: f.get(k_) for k_ in want_f} != want_f:
+            rep.violation(c.id, "unsized:availability", "probes %s, model says %s" % (f, want_f))
+        elif kv != {"direct": "8", "on_c": "8", "on_impl_app": "108", "next_layer": "109"} or evs != [c.meta["fn"]] * 4:
+            rep.violation(c.id, "unsized:behaviour", "results %s, fn reached %s" % (kv, evs))
+        else:
+            rep.bump("unsized_cases_ok")
+        rep.count(c.sig(), True)
     for c in pins:
         if c.removed is not None:
             d = (c.removed["diags"] or [{}])[0]
             rep.violation(c.id, "compile:%s:%s" % (d.get("code"), d.get("message", "")[:70]), "does not compile: %s" % d.get("message", "")[:300], pinned=c.meta["pin"])
-    core.floors(rep, calls_compared=3 * n, availability_probes=4 * n)
-    return rep.finish({c.id: c for c in cases + eager + borrowing + pins})
+    core.floors(rep, calls_compared=3 * n, availability_probes=4 * n, unsized_cases_ok=len(unsized))
+    return rep.finish({c.id: c for c in cases + eager + borrowing + unsized + pins})
